@@ -73,6 +73,9 @@ CONFIGS = {
 
 
 
+PURPOSE_BUILT = {"K23", "K24", "K25", "K26", "K27", "K28", "K29", "K30", "K31", "K33", "K34"}
+
+
 def thorough_spec(quick, focus, cross=False, exclude=()):
     """Thorough tier = everything of the quick tier, plus every configuration with the small alphabet at depth 4, the
     standard alphabet at depth 4 on two configurations, the focus alphabets one level deeper, deep auto-repay histories
@@ -85,7 +88,8 @@ def thorough_spec(quick, focus, cross=False, exclude=()):
             have.add(item)
             items.append(item)
     for k in CONFIGS:
-        if CONFIGS[k].get("pairs", 1) == 1 and not CONFIGS[k].get("pre_bar") and k not in exclude:
+        # (the purpose-built configurations K23.. come with their own alphabets: they are explored where a check lists them)
+        if CONFIGS[k].get("pairs", 1) == 1 and not CONFIGS[k].get("pre_bar") and k not in exclude and k not in PURPOSE_BUILT:
             add((k, "small", 4))
     add(("K0p", "small", 4))
     add(("K0", "std", 4))
